@@ -188,3 +188,83 @@ def replay_carryover_branch(model, params, role):
         return "batch_order 4 8192 8 13000 100 13000 100 100 100 100 100\n", (lambda out: "REORDERED" in out or "received=[" in out and out.count(",") < 8), \
             "PUSH -> PULL over tcp, burst of mixed sizes with small batch options; expecting the messages to arrive out of order (or not all)"
     return None
+
+
+# ------------------------------------------------------------------------------------------------
+# DEALER: messages accepted while no peer was connected wait in the pending queue; a background task
+# (DealerSocketOutgoingProcessor::run, a loop around two nested tokio::select!) must deliver them all
+DPROC = "socket::dealer_socket::DealerSocketOutgoingProcessor"
+LB = "socket::patterns::load_balancer::LoadBalancer"
+ORCH = "socket::patterns::outgoing_orchestrator::OutgoingMessageOrchestrator"
+DYN = "<dyn socket::connection_iface::ISocketConnection as socket::connection_iface::ISocketConnection>::"
+
+
+def dealer_pending_drain(h):
+    """n messages were queued (each with queue_activity_notifier.notify_one()) while no peer was attached; then a
+    peer with room attaches (peer_availability_notifier.notify_one()). The processor task is polled until it
+    parks. Every queued message must have been handed to the peer."""
+    from .d_c09 import Fut
+    from ..models import _deref
+    prog = h.it.prog
+    n = 1 + h.choose(h.params.get("max_queued", 4), "queued")
+    attach_first = h.choose(2, "peer_attached_before_the_task_first_runs") == 1
+    def notify():
+        return BoxV(Cell(Agg("{notify}", [0, False]), "notify"), ())
+    qn, pn, stop = notify(), notify(), notify()
+    def mk(tag):
+        fb = Ref(Cell(h.method("message::FrameBatch", "new"), "fb"), ())
+        h.method("message::FrameBatch", "push", fb, h.method("message::msg::Msg", "from_vec", Seq("vec", [tag])))
+        return fb.load()
+    queue = Seq("vecdeque", [], "message::FrameBatch")
+    qm = BoxV(Cell(Agg("{amutex}", [False, queue]), "pending_queue"), ())
+    lb = Ref(Cell(h.method(LB, "new"), "lb"), ())
+    orch = BoxV(Cell(Agg(ORCH, [lb.load()]), "orch"), ())
+    delivered = []
+    def try_send(it, args, dty, func):
+        delivered.append(_tag_of_batch(h, args[1]))
+        return ok(UNIT)
+    h.it.hooks[DYN + "try_send_multipart_owned_sync"] = try_send
+    fields = prog.struct_fields(DPROC)
+    vals = {"core_handle": 1, "pending_queue": qm, "outgoing_orchestrator": orch, "queue_activity_notifier": qn,
+            "peer_availability_notifier": pn, "stop_signal": stop}
+    proc = Agg(DPROC, [vals[f] for f in fields])
+    def notify_one(nb):
+        nb.load().f[1] = True
+    # the application sends n messages while no peer is connected: DealerSocket::queue_message_or_error pushes and notifies
+    for t in range(1, n + 1):
+        queue.f.append(mk(t))
+        notify_one(qn)
+    def attach():
+        h.method(LB, "add_connection", Ref(Cell(orch.load().f[0], "lb2"), ()), string("peer"), BoxV(Cell(Agg("{peer}", [0]), "peer0"), (), "{peer}"))
+        notify_one(pn)
+    h.panic_role = "c01.dealer-drain"
+    f = Fut(h, DPROC, "run", [proc])
+    if attach_first:
+        attach()
+    for step in range(3 * n + 6):
+        r = f.poll()
+        h.check(r is None, "c01.dealer-drain.processor-task-exited")
+        if r is not None:
+            return
+        if not attach_first and step == 0:
+            attach()            # the connection is established after the task looked at the queue for the first time
+            continue
+        # parked: polled again only if a notification is pending
+        if not (qn.load().f[1] or pn.load().f[1]):
+            break
+    left = [_tag_of_batch(h, b) for b in queue.f]
+    h.check(not left, "c01.dealer-drain.messages-stay-in-the-pending-queue-although-a-peer-has-room",
+            f"{n} message(s) queued before the peer attached; delivered {delivered}; still queued {left} with the processor task parked and no notification pending")
+    h.check(delivered == list(range(1, n + 1 - len(left))), "c01.dealer-drain.order", str(delivered))
+    h.cover("c01.dealer-drain.drained", not left)
+    h.cover("c01.dealer-drain.several-queued", n >= 3)
+
+
+def replay_dealer_pending_drain(model, params, role):
+    ch = dict(map(tuple, model.get("_choices", [])))
+    n = max(5, 1 + ch.get("queued", 0))
+    if "messages-stay-in-the-pending-queue" in role:
+        # public API: the messages are sent right after connect(), i.e. while the connection is still being established
+        return f"dealer_burst {n}\n", (lambda out: "STUCK" in out), \
+            f"DEALER connects to a ROUTER and sends {n} messages at once; expecting some of them never to arrive"
+    return None
